@@ -50,7 +50,11 @@ def effectorOp : List String → Option (String × String × Bool)
       let k ← parseKind k
       let cs ← parseCellTok cells
       let r := enforceLoop k cs
-      pure (s!"{showBool (decision r)} {showIdx r.2}", s!"{showBool (effectSpec k cs)} _", !cs.isEmpty)
+      -- the specification: the decision of C02's four sentences, and the set of rules EnforceEx may
+      -- name: none (-1), or a matched rule carrying the effect that produced the decision
+      let d := effectSpec k cs
+      let ok := (cs.zipIdx.filter (fun (c, _) => c.matched && c.eft == (if d then Eft.allow else Eft.deny))).map (fun (_, i) => toString i)
+      pure (s!"{showBool (decision r)} {showIdx r.2}", s!"{showBool d} \{{",".intercalate ("-1" :: ok)}}", !cs.isEmpty)
   | _ => none
 
 end Casbin.Driver
